@@ -397,3 +397,167 @@ theorem C09_misaligned_append_raises (a : TV) (l : Leaf) (h : a.bits.length % 8 
 example : (⟨.none, [true, false, true]⟩ : TV).bits.length % 8 ≠ 0 := by decide
 
 end FV
+
+namespace FV
+open TV
+
+/-! ## 6. exactly when is the value defined?  "as long as the positions where bytes are needed are
+byte-aligned" -/
+
+/-- UTF-8 encodable text (no lone surrogates) -/
+def EncOk (s : Str) : Prop := ∃ b, encode .utf8 s = .ok b
+
+def Leaf.EncOk : Leaf → Prop
+  | .text s => FV.EncOk s
+  | _ => True
+
+/-- scan the leaves with the number of pending bits: a text or bytes leaf needs a byte boundary -/
+def alignedFrom : Nat → List Leaf → Bool
+  | _, [] => true
+  | p, .bit _ :: ls => alignedFrom (p + 1) ls
+  | p, .text _ :: ls => p % 8 == 0 && alignedFrom 0 ls
+  | p, .bytes _ :: ls => p % 8 == 0 && alignedFrom 0 ls
+
+theorem encOk_append {s t : Str} (hs : EncOk s) (ht : EncOk t) : EncOk (s ++ t) := by
+  obtain ⟨a, ha⟩ := hs
+  obtain ⟨b, hb⟩ := ht
+  exact ⟨a ++ b, by rw [encode_append, ha, hb]⟩
+
+/-- the accumulator's own text is encodable -/
+def TV.ValOk (v : TV) : Prop := ∀ s, v.val = .text s → EncOk s
+
+theorem reduce_aligned_ok {v : TV} (hv : v.ValOk) (ha : v.bits.length % 8 = 0)
+    (hne : v.type ≠ .empty) :
+    ∃ v', reduce .utf8 v = .ok v' ∧ v'.bits = [] ∧
+      ((∃ s, v'.val = .text s ∧ EncOk s) ∨ ∃ b, v'.val = .bytes b) := by
+  rcases reduce_cases .utf8 v with ⟨hb, hr⟩ | ⟨_, hl, _⟩ | ⟨_, _, hr⟩
+  · refine ⟨v, hr, hb, ?_⟩
+    cases hval : v.val with
+    | none => exact absurd (by simp [type, hval, hb]) hne
+    | text s => exact Or.inl ⟨s, rfl, hv s hval⟩
+    | bytes b => exact Or.inr ⟨b, rfl⟩
+  · exact absurd ha hl
+  · cases hval : v.val with
+    | none => simp only [hval] at hr; exact ⟨_, hr, rfl, Or.inr ⟨_, rfl⟩⟩
+    | bytes b => simp only [hval] at hr; exact ⟨_, hr, rfl, Or.inr ⟨_, rfl⟩⟩
+    | text s =>
+      simp only [hval] at hr
+      obtain ⟨b, hb⟩ := hv s hval
+      simp only [hb] at hr
+      exact ⟨_, hr, rfl, Or.inr ⟨_, rfl⟩⟩
+
+/-- appending a bit leaf always succeeds and adds one pending bit -/
+theorem append_bit_defined (acc : TV) (b : Bool) (hacc : acc.ValOk) :
+    ∃ acc', acc.append (Leaf.bit b).tv = .ok acc' ∧ acc'.ValOk ∧
+      acc'.bits.length = acc.bits.length + 1 := by
+  unfold append
+  by_cases he : acc.type = .empty
+  · have := (type_empty_iff acc).1 he
+    subst this
+    refine ⟨(Leaf.bit b).tv, by simp [he], ?_, by simp [Leaf.tv, TV.empty]⟩
+    intro s hs; simp [Leaf.tv] at hs
+  · refine ⟨⟨acc.val, acc.bits ++ [b]⟩, by simp [he, Leaf.tv], ?_, by simp⟩
+    intro s hs; exact hacc s hs
+
+/-- appending an encodable text or bytes leaf succeeds exactly at a byte boundary -/
+theorem append_payload_defined (acc : TV) (l : Leaf) (hbit : ∀ b, l ≠ .bit b) (hacc : acc.ValOk)
+    (hl : l.EncOk) :
+    if acc.bits.length % 8 = 0
+    then ∃ acc', acc.append l.tv = .ok acc' ∧ acc'.ValOk ∧ acc'.bits.length = 0
+    else acc.append l.tv = .error .conv := by
+  by_cases ha : acc.bits.length % 8 = 0
+  · simp only [ha, if_true]
+    by_cases he : acc.type = .empty
+    · refine ⟨l.tv, by simp [append, he], ?_, ?_⟩
+      · intro s hs
+        cases l with
+        | text t => simp [Leaf.tv] at hs; subst hs; exact hl
+        | bytes t => simp [Leaf.tv] at hs
+        | bit b => exact absurd rfl (hbit b)
+      · cases l <;> simp [Leaf.tv]
+        exact absurd rfl (hbit _)
+    · obtain ⟨v', hr, hnil, hval⟩ := reduce_aligned_ok hacc ha he
+      cases l with
+      | bit b => exact absurd rfl (hbit b)
+      | text t =>
+        have ht : EncOk t := hl
+        rcases hval with ⟨s, hs, hes⟩ | ⟨s, hs⟩
+        · refine ⟨⟨.text (s ++ t), []⟩, by simp [append, he, Leaf.tv, hr, hs], ?_, rfl⟩
+          intro u hu; simp at hu; subst hu; exact encOk_append hes ht
+        · obtain ⟨tb, htb⟩ := ht
+          refine ⟨⟨.bytes (s ++ tb), []⟩, by simp [append, he, Leaf.tv, hr, hs, htb], ?_, rfl⟩
+          intro u hu; simp at hu
+      | bytes t =>
+        rcases hval with ⟨s, hs, hes⟩ | ⟨s, hs⟩
+        · obtain ⟨sb, hsb⟩ := hes
+          refine ⟨⟨.bytes (sb ++ t), []⟩, by simp [append, he, Leaf.tv, hr, hs, hsb], ?_, rfl⟩
+          intro u hu; simp at hu
+        · refine ⟨⟨.bytes (s ++ t), []⟩, by simp [append, he, Leaf.tv, hr, hs], ?_, rfl⟩
+          intro u hu; simp at hu
+  · simp only [ha, if_false]
+    exact C09_misaligned_append_raises acc l ha hbit
+
+/-- **the value of a leaf sequence exists exactly when every byte-needing position is aligned**
+    (for UTF-8-encodable text); otherwise the fold raises the conversion error -/
+theorem C09_fold_defined_iff_aligned : ∀ (ls : List Leaf) (acc : TV), acc.ValOk →
+    (∀ l ∈ ls, l.EncOk) →
+    (if alignedFrom acc.bits.length ls = true
+     then ∃ v, foldAppend acc (ls.map Leaf.tv) = .ok v
+     else foldAppend acc (ls.map Leaf.tv) = .error .conv)
+  | [], acc, _, _ => by simp [alignedFrom, foldAppend]
+  | l :: ls, acc, hacc, hls => by
+    have hl : l.EncOk := hls l (by simp)
+    have hrest : ∀ l' ∈ ls, l'.EncOk := fun l' h => hls l' (by simp [h])
+    simp only [List.map, foldAppend]
+    cases l with
+    | bit b =>
+      obtain ⟨acc', ha, hok, hlen⟩ := append_bit_defined acc b hacc
+      have ih := C09_fold_defined_iff_aligned ls acc' hok hrest
+      simp only [alignedFrom, ha]
+      rw [hlen] at ih
+      exact ih
+    | text t =>
+      have step := append_payload_defined acc (.text t) (by intro b; simp) hacc hl
+      by_cases hal : acc.bits.length % 8 = 0
+      · simp only [hal, if_true] at step
+        obtain ⟨acc', ha, hok, hlen⟩ := step
+        have ih := C09_fold_defined_iff_aligned ls acc' hok hrest
+        rw [hlen] at ih
+        simpa [alignedFrom, hal, ha] using ih
+      · simp only [hal, if_false] at step
+        simp [alignedFrom, hal, step]
+    | bytes t =>
+      have step := append_payload_defined acc (.bytes t) (by intro b; simp) hacc hl
+      by_cases hal : acc.bits.length % 8 = 0
+      · simp only [hal, if_true] at step
+        obtain ⟨acc', ha, hok, hlen⟩ := step
+        have ih := C09_fold_defined_iff_aligned ls acc' hok hrest
+        rw [hlen] at ih
+        simpa [alignedFrom, hal, ha] using ih
+      · simp only [hal, if_false] at step
+        simp [alignedFrom, hal, step]
+
+/-- for whole trees: an inner node over encodable leaves has a value iff its leaf sequence is aligned -/
+theorem C09_value_defined_iff_aligned (s : Sym) (a r : Option String) (kids : List Tree)
+    (hs : ∀ l, s ≠ .term l) (henc : ∀ l ∈ Tree.leavesL kids, l.EncOk) :
+    (∃ v, (Tree.mk s a r kids).value = .ok v) ↔ alignedFrom 0 (Tree.leavesL kids) = true := by
+  rw [C09_value_is_fold_over_leaves s a r kids hs]
+  have h := C09_fold_defined_iff_aligned (Tree.leavesL kids) TV.empty
+    (by intro s hs; simp [TV.empty] at hs) henc
+  have h0 : TV.empty.bits.length = 0 := rfl
+  rw [h0] at h
+  by_cases hal : alignedFrom 0 (Tree.leavesL kids) = true
+  · simp only [hal, if_true] at h
+    exact ⟨fun _ => hal, fun _ => h⟩
+  · simp only [hal] at h
+    constructor
+    · rintro ⟨v, hv⟩
+      simp only [Bool.false_eq_true, if_false] at h
+      rw [h] at hv
+      cases hv
+    · intro hc; exact absurd hc hal
+
+example : alignedFrom 0 exNested.leaves = true ∧ alignedFrom 0 [.bit true, .text [97]] = false := by
+  decide
+
+end FV
